@@ -12,12 +12,18 @@ InDomain(e) ==
   /\ e.op \in Ops /\ e.alg \in 1..3 /\ e.bearer \in 0..31 /\ e.dir \in 0..1
   /\ Len(e.data) = NBytes(e.nbits) /\ MaskBits(e.data, e.nbits) = e.data
   /\ (e.alg = 2 \/ e.op = "NASMacCalculate") => e.nbits % 8 = 0
+\* OutputFresh: a returned slice is a value the caller owns.  After logging a result the harness inverted every octet of the
+\* returned slice in place; `prev` is that result as logged, `held` what the slice holds after the present call: a later
+\* call must not change an earlier result (and the write must not influence later results: that shows as "value").
+InvS(s) == LET n == Len(s) IN SubSeq([i \in 1..n |-> 255 - s[i]], 1, n)
+OutputFresh(e) == e.held = InvS(e.prev)
 Verdict(e) ==
   IF ~InDomain(e) THEN "out-of-domain"      \* the harness only makes in-domain calls: reported, treated as a harness problem
   ELSE IF e.panic THEN "panic"
   ELSE IF e.err THEN "error"
   ELSE IF Len(e.out) # 4 THEN "length"
   ELSE IF e.out # EIA(e.alg, e.key, e.cnt, e.bearer, e.dir, e.data, e.nbits) THEN "value"
+  ELSE IF ~OutputFresh(e) THEN "result-changed"
   ELSE "ok"
 TInit == l = 1 /\ TLCSet(2, 0)
 TNext ==
